@@ -2,7 +2,7 @@
 Q1 the entry count is adjusted exactly once per link / unlink (ESP typestate) / Q2 single finisher (= Z1) / Q3 power-of-two table lengths."""
 from .affine import evaluator, Aff, TOP
 from .analysis import flow, regions, cond_of, reach, after, Point, back_edges, loop_blocks, held_regions_at, dominated_by_edge
-from .anchors import anchors, callee_str, is_std_atomic, is_reclaim_atomic, receiver_field, is_link_load
+from .anchors import anchors, callee_str, is_std_atomic, is_reclaim_atomic, receiver_field, is_link_load, is_fresh_alloc
 from .esp import Esp, Spec
 from .facts import op_root, op_local, op_int, strip_generics
 from .protocol import bin_lock_region
@@ -124,7 +124,7 @@ def put_events(facts, put):
         elif is_reclaim_atomic(c) == "store" and ("node::Node", "next") in receiver_field(put, c, 0):
             vl = op_root(c.args[1])
             if vl is not None and not private_roots(put, vl) and any(
-                    callee_str(x).endswith("Shared::boxed") for x in fl.call_roots(vl) if x is not None):
+                    is_fresh_alloc(put, x) for x in fl.call_roots(vl) if x is not None):
                 calls[c.point] = "fresh node appended"
         elif s.endswith("TreeBin::find_or_put_tree_val"):
             dl = c.dst_local()
@@ -295,8 +295,13 @@ def rule_q1_clear(ctx, facts):
         ctx.fail_closed("Q1: expected the two node-walk loops of clear, found %d" % n_loops)
 
 
-def pow2(body, op, facts, depth=0, seen=None, at=None):
-    """(is power of two by provenance, description)"""
+_POW2_BUSY = set()
+
+
+def pow2(body, op, facts, depth=0, seen=None, at=None, needs=None):
+    """(is power of two by provenance, description).  `needs` (a set, when given) collects the parameters of `body` the verdict
+    depends on: the caller has to show the same for the operands it passes."""
+    needs_out = needs
     seen = seen if seen is not None else set()
     if depth > 12:
         return False, "too deep"
@@ -320,48 +325,72 @@ def pow2(body, op, facts, depth=0, seen=None, at=None):
         if live is not None and pt not in live:
             continue
         if kind == "copy":
-            ok, d = pow2(body, {"copy": {"local": data, "proj": []}}, facts, depth + 1, seen, at=pt)
+            ok, d = pow2(body, {"copy": {"local": data, "proj": []}}, facts, depth + 1, seen, at=pt, needs=needs_out)
         elif kind == "const":
-            ok, d = pow2(body, data, facts, depth + 1, seen, at=pt)
+            ok, d = pow2(body, data, facts, depth + 1, seen, at=pt, needs=needs_out)
         elif kind == "field":
             # (x op y).0 of checked arithmetic
             ok, d = False, "arithmetic result"
             for p2, k2, d2 in body.defs.get(data["local"], []):
                 if k2 == "assign" and "bin" in d2["rv"]:
-                    ok, d = pow2_bin(body, d2["rv"], facts, depth, seen, at=p2)
+                    ok, d = pow2_bin(body, d2["rv"], facts, depth, seen, at=p2, needs=needs_out)
         elif kind == "call":
             c = data
             s = callee_str(c)
             if s.endswith("::next_power_of_two"):
                 ok, d = True, "next_power_of_two()"
             elif s.endswith("cmp::min") or s.endswith("cmp::max") or s.endswith("Ord::max") or s.endswith("Ord::min") or s.endswith("::max") or s.endswith("::min"):
-                rs = [pow2(body, a, facts, depth + 1, seen, at=pt) for a in c.args]
+                rs = [pow2(body, a, facts, depth + 1, seen, at=pt, needs=needs_out) for a in c.args]
                 ok, d = all(r[0] for r in rs), "%s(%s)" % (s.rsplit("::", 1)[-1], ", ".join(r[1] for r in rs))
             elif s.endswith("raw::Table::len"):
                 ok, d = True, "length of an existing table (inductive)"
             elif is_std_atomic(c) == "load" and ("map::HashMap", "size_ctl") in receiver_field(body, c, 0):
                 ok, d = True, "size_ctl while the table is unallocated (aux: 0)"
+            elif facts.by_id.get(c.resolved) is not None and facts.by_id[c.resolved].kind != "Closure":
+                # a crate function: its returned value must have power-of-two provenance, given that of the arguments it depends on
+                tb = facts.by_id[c.resolved]
+                key = ("pow2sum", tb.id)
+                if key in _POW2_BUSY:
+                    ok, d = True, "recursive"
+                else:
+                    _POW2_BUSY.add(key)
+                    try:
+                        needs = set()
+                        ok, d = pow2(tb, {"copy": {"local": 0, "proj": []}}, facts, depth + 1, set(), at=None, needs=needs)
+                        d = "%s(..) returns %s" % (strip_generics(tb.id).rsplit("::", 1)[-1], d)
+                        for k in sorted(needs):
+                            if not ok or k - 1 >= len(c.args):
+                                ok = False
+                                break
+                            ok2, d2 = pow2(body, c.args[k - 1], facts, depth + 1, seen, at=pt, needs=needs_out)
+                            ok = ok and ok2
+                            d += " with arg%d = %s" % (k, d2)
+                    finally:
+                        _POW2_BUSY.discard(key)
             else:
                 ok, d = False, "result of %s" % s
         elif kind == "other" or kind == "assign":
             ok, d = False, "?"
+        elif kind == "arg" and needs_out is not None:
+            needs_out.add(data)
+            ok, d = True, "parameter %d" % data
         else:
             ok, d = False, kind
         # casts and shifts arrive as 'other' statements: handle through defs
         if kind == "other":
             st = data
             if "bin" in st["rv"]:
-                ok, d = pow2_bin(body, st["rv"], facts, depth, seen, at=pt)
+                ok, d = pow2_bin(body, st["rv"], facts, depth, seen, at=pt, needs=needs_out)
         descs.append((ok, d))
     if not descs:
         return False, "undefined"
     return all(o for o, _ in descs), " | ".join(d for _, d in descs)
 
 
-def pow2_bin(body, rv, facts, depth, seen, at=None):
+def pow2_bin(body, rv, facts, depth, seen, at=None, needs=None):
     op = rv["bin"].replace("WithOverflow", "").replace("Unchecked", "")
     if op == "Shl":
-        ok, d = pow2(body, rv["a"], facts, depth + 1, seen, at=at)
+        ok, d = pow2(body, rv["a"], facts, depth + 1, seen, at=at, needs=needs)
         return ok and rv["b"].get("int") is not None, "(%s) << %s" % (d, rv["b"].get("int"))
     return False, "%s arithmetic" % op
 
@@ -539,7 +568,66 @@ def rule_q4(ctx, facts):
                      "the value stored at i does not derive from the list fed on the zero edge")
 
 
+def rule_q5(ctx, facts):
+    """the observers report the counter: HashMap::len returns the `count` word (0 when it is transiently negative) and is_empty is
+    len() == 0 -- so at a quiescent point len / is_empty agree with what Q1 counted"""
+    from .affine import evaluator, Aff, TOP
+    CNT = ("map::HashMap", "count")
+    lens = [b for b in facts.bodies if b.sid.endswith("map::HashMap::len") or b.sid == "map::HashMap::len"]
+    emp = [b for b in facts.bodies if b.sid.endswith("map::HashMap::is_empty")]
+    if len(lens) != 1 or len(emp) != 1:
+        ctx.fail_closed("Q5: HashMap::len / HashMap::is_empty not found")
+        return
+    b = lens[0]
+    ev = evaluator(b)
+    loads = [c for c in b.calls if is_std_atomic(c) == "load" and CNT in receiver_field(b, c, 0)]
+    forms = ev.def_forms(0)
+    ok = bool(loads) and bool(forms)
+    why = []
+    for pt, f in forms:
+        if f is TOP:
+            ok = False
+            why.append("a returned value is not a function of the counter")
+        elif f.is_const():
+            if f.c != 0:
+                ok = False
+                why.append("returns the constant %s" % f.c)
+            else:
+                # 0 only where the counter was seen negative (or zero)
+                g = False
+                for blk in range(len(b.blocks)):
+                    cd = cond_of(b, blk)
+                    if cd and cd["kind"] == "cmp" and cd["op"] in ("Lt", "Le"):
+                        a, bb = ev.operand(cd["a"]), ev.operand(cd["b"])
+                        if a is not TOP and bb is not TOP and any(a == Aff.sym(("call", l.b)) for l in loads) and bb.is_const() and bb.c == 0 \
+                                and dominated_by_edge(b, pt, [(blk, cd["true"])]):
+                            g = True
+                if not g:
+                    ok = False
+                    why.append("returns 0 on a path where the counter was not seen to be <= 0")
+        elif not any(f == Aff.sym(("call", l.b)) for l in loads):
+            ok = False
+            why.append("returns %s, not the counter" % f.show(b))
+    ctx.inst("Q5", b, "len() is the counter", b.span, ok, "returns count.load(), 0 when negative" if ok else "; ".join(why) or "no load of `count`")
+    e = emp[0]
+    ev = evaluator(e)
+    lc = [c for c in e.calls if c.resolved == b.id]
+    ok = False
+    for pt, kind, data in e.defs.get(0, []):
+        if kind == "assign" and data["rv"].get("bin") in ("Eq", "Le"):
+            x, y = ev.operand(data["rv"]["a"]), ev.operand(data["rv"]["b"])
+            if x is not TOP and y is not TOP and y.is_const() and y.c == 0 and any(x == Aff.sym(("call", c.b)) for c in lc):
+                ok = True
+    ctx.inst("Q5", e, "is_empty() is len() == 0", e.span, ok, "len() == 0" if ok else "is_empty is not defined as len() == 0: it can disagree with len at a quiescent point")
+
+
 def run(ctx, facts):
+    ctx.rule("Q6", "entries are linked / unlinked and bins replaced only under the bin lock (rule L2 of C01): otherwise an insert can land in a bin "
+                   "that is being replaced, is counted, and is found by neither lookup nor iteration", floor=30)
+    from .rules_c01 import rule_l2
+    rule_l2(ctx, facts, rule="Q6")
+    ctx.rule("Q5", "len() returns the counter (clamped at 0) and is_empty() is len() == 0", floor=2)
+    rule_q5(ctx, facts)
     ctx.rule("Q4", "transfer splits a bin by the bit `hash & n`: the zero half is stored at index i of the new table, the other half at i + n", floor=5)
     rule_q4(ctx, facts)
     ctx.rule("Q1", "the entry count is adjusted exactly once per link (put) / unlink (compute_if_present, replace_node, clear), on every feasible path", floor=6)
